@@ -300,3 +300,224 @@ Theorem C03_reject_direction_refuted_chunk_size_cr_boundary :
     digest (run_segs lim [] init [concat segs] [] []) = (ROk [], [([80; 79; 83; 84], [47], [120], [1], true, None)]).
 Proof. exact (ex_intro _ lim_c (ex_intro _ [wc_1; wc_2] (ex_intro _ ELineTooLong refute_chunk_size_cr_boundary))). Qed.
 Print Assumptions C03_reject_direction_refuted_chunk_size_cr_boundary.
+
+(* ====================================================================================================
+   RESPONSE parser (HttpResponseParser, lax mode: SEP = LF, rstrip(CR), obs-fold, lax chunk sizes,
+   optional CR skipping).  Model: Model/HttpResp.v (rfeed = HttpResponseParser.feed_data, rrun_segs = a
+   sequence of feed_data calls, rfeed_eof); proofs: Proofs/HttpResp*.v.
+
+   Vocabulary (Proofs/HttpRespSeg.v, HttpRespChunk.v):
+     rwf s             invariant of the parser state between two feed_data calls (C03_resp_wf_spelled)
+     rtail_ok lim s    the buffered partial chunk-size / trailer line passes the length re-check of the next call
+     rclean_st s       the read did NOT end (a) right after an optional CR that follows chunk data, nor
+                       (b) right after the last-chunk line.  These are the only two places where the lax
+                       parser's CR skipping looks at the read boundary: (a) the next read skips one more
+                       CR; (b) the CR after the last-chunk line is skipped only within the same read.
+                       In the model the two states are RChunked (RDataEnd true) / RChunked RTrail0.
+     rboundaries_clean rclean_st at every read boundary that is followed by a read
+     robs, rprepend    as obs / prepend above
+
+   Summary.  The unrestricted ACCEPT-direction statements are FALSE of the faithful model
+   (C03_resp_split_accept_refuted_*, C03_resp_seg_accept_refuted: both witnesses replayed on the
+   implementation, known findings C03-lax-double-cr and C03-lax-cr-after-last-chunk).  With clean read
+   boundaries they hold in full, for all configurations, states and streams (C03_resp_*_partial): same
+   final state, messages, fields, body bytes, chunk ends, eof / exception marks, unconsumed bytes.
+   REJECT direction: additionally refuted by the CR/LF boundary at a line limit. *)
+From AV Require Import Lib.Utf8Decode Generated.HttpRespGen Model.HttpResp
+  Proofs.HttpRespBase Proofs.HttpRespChunk Proofs.HttpRespSeg Proofs.HttpRespLimits Proofs.HttpRespEx.
+
+(* ------------------------------------------------------------------ R1. invariant *)
+Theorem C03_resp_wf_init : rwf rinit.
+Proof. exact rwf_init. Qed.
+Print Assumptions C03_resp_wf_init.
+
+Theorem C03_resp_wf_feed : forall cfg s d a s1 a1 lo1,
+  rwf s -> rfeed cfg s d a = (s1, a1, OOk lo1) -> rwf s1.
+Proof. exact rfeed_wf. Qed.
+Print Assumptions C03_resp_wf_feed.
+
+Theorem C03_resp_wf_run_segs : forall cfg segs s acc lo s' acc' lo',
+  rwf s -> rrun_segs cfg s segs acc lo = (s', acc', OOk lo') -> rwf s'.
+Proof. exact rrun_segs_wf. Qed.
+Print Assumptions C03_resp_wf_run_segs.
+
+Theorem C03_resp_wf_spelled : forall s, rwf s ->
+  (rpayload s <> None \/ rupgraded s = true -> rtail s = []) /\
+  forall p, rpayload s = Some p ->
+    match rpk p with
+    | RLength rem => 0 < rem /\ rctail p = [] /\ rtlines p = []
+    | RUntilEof => rctail p = [] /\ rtlines p = []
+    | RChunked (RData rem) => 0 < rem /\ rctail p = []
+    | RChunked (RDataEnd _) | RChunked RTrail0 => rctail p = []
+    | RChunked _ => has_byte 10 (rctail p) = false
+    end.
+Proof. exact rwf_spelled. Qed.
+Print Assumptions C03_resp_wf_spelled.
+
+(* ------------------------------------------------------------------ R2. fuel *)
+Theorem C03_resp_feed_fuel_sufficient : forall cfg s d a f,
+  rwf s -> (2 * length (rtail s ++ d) + 2 <= f)%nat ->
+  rfeed_loop f cfg (rclr s) (rtail s ++ d) a = rfeed cfg s d a.
+Proof. exact rfeed_fuel. Qed.
+Print Assumptions C03_resp_feed_fuel_sufficient.
+
+Theorem C03_resp_feed_loop_fuel_independent : forall cfg s buf evs f f',
+  rtail s = [] -> rpwf s ->
+  (2 * length buf + 2 <= f)%nat -> (2 * length buf + 2 <= f')%nat ->
+  rfeed_loop f cfg s buf evs = rfeed_loop f' cfg s buf evs.
+Proof. exact rfeed_loop_fuel. Qed.
+Print Assumptions C03_resp_feed_loop_fuel_independent.
+
+Theorem C03_resp_chunked_loop_fuel_independent : forall lim mt c tl chunk evs f f',
+  match c with RData rem => 0 < rem | _ => True end ->
+  (2 * length chunk + 2 <= f)%nat -> (2 * length chunk + 2 <= f')%nat ->
+  rchunked_loop f lim mt c tl chunk evs = rchunked_loop f' lim mt c tl chunk evs.
+Proof. exact rchunked_loop_fuel. Qed.
+Print Assumptions C03_resp_chunked_loop_fuel_independent.
+
+(* the out-of-fuel branches are never taken: same result with an ARBITRARY out-of-fuel answer d' *)
+Theorem C03_resp_feed_loop_never_out_of_fuel : forall cfg s buf evs f (d' : rfcfg -> rfres),
+  rtail s = [] -> rpwf s -> (2 * length buf + 2 <= f)%nat ->
+  rfeed_loop f cfg s buf evs = loop (rstep_f cfg) d' f (s, evs) buf.
+Proof. exact rfeed_loop_never_out_of_fuel. Qed.
+Print Assumptions C03_resp_feed_loop_never_out_of_fuel.
+
+Theorem C03_resp_chunked_loop_never_out_of_fuel : forall lim mt c tl chunk evs f (d' : rcst -> rpres),
+  match c with RData rem => 0 < rem | _ => True end ->
+  (2 * length chunk + 2 <= f)%nat ->
+  rchunked_loop f lim mt c tl chunk evs = loop (rstep_c lim mt) d' f (c, tl, evs) chunk.
+Proof. exact rchunked_loop_never_out_of_fuel. Qed.
+Print Assumptions C03_resp_chunked_loop_never_out_of_fuel.
+
+(* ------------------------------------------------------------------ R3. two reads *)
+(* the full-strength statement (the one proved for the request parser, C03_split_accept) is FALSE:
+   witness (a) "... 3 CRLF abc CR" | "CR LF 0 CRLF CRLF": both reads return normally, one read of the
+   same bytes raises TransferEncodingError (CR CR LF after chunk data) *)
+Theorem C03_resp_split_accept_refuted_double_cr :
+  ~ (forall cfg s a b acc s1 acc1 lo1 s2 acc2 lo2,
+       rwf s ->
+       rfeed cfg s a acc = (s1, acc1, OOk lo1) ->
+       rfeed cfg s1 b acc1 = (s2, acc2, OOk lo2) ->
+       rfeed cfg s (a ++ b) acc = (s2, acc2, OOk (lo1 ++ lo2))).
+Proof. exact refute_split_double_cr. Qed.
+Print Assumptions C03_resp_split_accept_refuted_double_cr.
+
+(* witness (b) "... 0 CRLF" | "CR X: y CRLF": both reads return normally and so does one read, but the
+   split run has collected the trailer line "CR X: y", the one-read run "X: y" (C03_resp_split_witnesses) *)
+Theorem C03_resp_split_accept_refuted_cr_after_last_chunk :
+  ~ (forall cfg s a b acc s1 acc1 lo1 s2 acc2 lo2,
+       rwf s ->
+       rfeed cfg s a acc = (s1, acc1, OOk lo1) ->
+       rfeed cfg s1 b acc1 = (s2, acc2, OOk lo2) ->
+       rfeed cfg s (a ++ b) acc = (s2, acc2, OOk (lo1 ++ lo2))).
+Proof. exact refute_split_cr_after_last_chunk. Qed.
+Print Assumptions C03_resp_split_accept_refuted_cr_after_last_chunk.
+
+Example C03_resp_split_witnesses :
+  (pkind_of (fst (fst r1_ab)) = Some (RChunked (RDataEnd true), [], []) /\ rclean_st (fst (fst r1_ab)) = false /\
+   pkind_of (fst (fst r1_cd)) = Some (RChunked RTrail0, [], []) /\ rclean_st (fst (fst r1_cd)) = false) /\
+  (pkind_of (fst (fst r2_cd)) = Some (RChunked RTrailers, [], [[13; 88; 58; 32; 121]]) /\
+   pkind_of (fst (fst (rfeed rcfg0 rinit (w_c ++ w_d) []))) = Some (RChunked RTrailers, [], [[88; 58; 32; 121]])).
+Proof. exact (conj witnesses_unclean cd_split_vs_one). Qed.
+Print Assumptions C03_resp_split_witnesses.
+
+(* what holds: with a clean boundary, the accept direction in full *)
+Theorem C03_resp_split_accept_partial : forall cfg s a b acc s1 acc1 lo1 s2 acc2 lo2,
+  rwf s ->
+  rfeed cfg s a acc = (s1, acc1, OOk lo1) ->
+  rclean_st s1 = true ->
+  rfeed cfg s1 b acc1 = (s2, acc2, OOk lo2) ->
+  rfeed cfg s (a ++ b) acc = (s2, acc2, OOk (lo1 ++ lo2)).
+Proof. exact rfeed_split_accept. Qed.
+Print Assumptions C03_resp_split_accept_partial.
+
+(* including the second read's exceptions (needs the re-check of the buffered chunk line to pass) *)
+Theorem C03_resp_split_partial : forall cfg s a b acc s1 acc1 lo1,
+  rwf s ->
+  rfeed cfg s a acc = (s1, acc1, OOk lo1) ->
+  rtail_ok (c_lim cfg) s1 = true -> rclean_st s1 = true ->
+  robs (rfeed cfg s (a ++ b) acc) =
+  robs (let '(s2, acc2, r) := rfeed cfg s1 b acc1 in (s2, acc2, rprepend lo1 r)).
+Proof. exact rfeed_split. Qed.
+Print Assumptions C03_resp_split_partial.
+
+(* ------------------------------------------------------------------ R4. any segmentation *)
+Theorem C03_resp_seg_accept_refuted :
+  ~ (forall cfg segs s acc lo s' acc' lo',
+       rwf s -> segs <> [] ->
+       rrun_segs cfg s segs acc lo = (s', acc', OOk lo') ->
+       rrun_segs cfg s [concat segs] acc lo = (s', acc', OOk lo')).
+Proof. exact refute_seg_double_cr. Qed.
+Print Assumptions C03_resp_seg_accept_refuted.
+
+Theorem C03_resp_seg_accept_partial : forall cfg segs s acc lo s' acc' lo',
+  rwf s -> segs <> [] -> rboundaries_clean cfg s segs acc = true ->
+  rrun_segs cfg s segs acc lo = (s', acc', OOk lo') ->
+  rrun_segs cfg s [concat segs] acc lo = (s', acc', OOk lo').
+Proof. exact rseg_accept. Qed.
+Print Assumptions C03_resp_seg_accept_partial.
+
+Theorem C03_resp_seg_indep_accept_partial : forall cfg segs1 segs2 s acc lo s1 acc1 lo1 s2 acc2 lo2,
+  rwf s -> segs1 <> [] -> segs2 <> [] -> concat segs1 = concat segs2 ->
+  rboundaries_clean cfg s segs1 acc = true -> rboundaries_clean cfg s segs2 acc = true ->
+  rrun_segs cfg s segs1 acc lo = (s1, acc1, OOk lo1) ->
+  rrun_segs cfg s segs2 acc lo = (s2, acc2, OOk lo2) ->
+  (s1, acc1, lo1) = (s2, acc2, lo2).
+Proof. exact rseg_indep_accept. Qed.
+Print Assumptions C03_resp_seg_indep_accept_partial.
+
+(* one-read rejection => every segmentation with clean boundaries is rejected *)
+Theorem C03_resp_seg_oneshot_reject_partial : forall cfg segs s acc lo s1 acc1 e,
+  rwf s -> segs <> [] -> rboundaries_clean cfg s segs acc = true ->
+  rrun_segs cfg s [concat segs] acc lo = (s1, acc1, OErr e) ->
+  forall s2 acc2 r2, rrun_segs cfg s segs acc lo = (s2, acc2, r2) -> forall l, r2 <> OOk l.
+Proof. exact rseg_oneshot_reject. Qed.
+Print Assumptions C03_resp_seg_oneshot_reject_partial.
+
+(* non-vacuity: LF-only head with a folded field, lax chunk-size line " 1a ;x=y" cut inside, 26 data
+   bytes, a pipelined 204: three reads with clean boundaries = one read (states included) *)
+Example C03_resp_seg_example :
+  rboundaries_clean rcfg0 rinit [x_a; x_b; x_c] [] = true /\
+  pkind_of (fst (fst (rfeed rcfg0 rinit x_a []))) = Some (RChunked RSize, [32; 49; 97], []) /\
+  rdigest (rrun_segs rcfg0 rinit [x_a; x_b; x_c] [] []) =
+    (OOk [], [(200, [97; 98; 99; 100; 101; 102; 103; 104; 105; 106; 107; 108; 109; 110; 111; 112; 113; 114; 115; 116; 117; 118; 119; 120; 121; 122], [26], true, None);
+              (204, [], [], true, None)]) /\
+  rrun_segs rcfg0 rinit [concat [x_a; x_b; x_c]] [] [] = rrun_segs rcfg0 rinit [x_a; x_b; x_c] [] [] /\
+  map (fun m => rm_headers (rr_msg m)) (snd (fst (rrun_segs rcfg0 rinit [x_a; x_b; x_c] [] []))) =
+    [[]; [([88; 45; 70], [97; 32; 98]); ([84; 114; 97; 110; 115; 102; 101; 114; 45; 69; 110; 99; 111; 100; 105; 110; 103], [99; 104; 117; 110; 107; 101; 100])]].
+Proof. exact ex_clean_three_reads. Qed.
+Print Assumptions C03_resp_seg_example.
+
+(* ------------------------------------------------------------------ R5. reject direction *)
+(* a complete stream accepted in one read, rejected when the read boundary falls right after the
+   last-chunk line ("0 CRLF" | "CR X: y CRLF CRLF") *)
+Theorem C03_resp_reject_direction_refuted_cr_after_last_chunk :
+  exists cfg segs e,
+    rdigest (rrun_segs cfg rinit segs [] []) = (OErr e, [(200, [97; 98; 99], [3], false, Some e)]) /\
+    rdigest (rrun_segs cfg rinit [concat segs] [] []) = (OOk [], [(200, [97; 98; 99], [3], true, None)]).
+Proof. exact (ex_intro _ rcfg0 (ex_intro _ [w_c; w_d2] (ex_intro _ EInvalidHeader refute_reject_cr_after_last_chunk))). Qed.
+Print Assumptions C03_resp_reject_direction_refuted_cr_after_last_chunk.
+
+(* max_field_size = 10, field line "a:34567890" (10 bytes) cut between its CR and LF: LineTooLong when
+   split (the buffered-line length check counts the CR), accepted in one read *)
+Theorem C03_resp_reject_direction_refuted_cr_boundary :
+  exists cfg segs e,
+    rdigest (rrun_segs cfg rinit segs [] []) = (OErr e, []) /\
+    rdigest (rrun_segs cfg rinit [concat segs] [] []) = (OOk [], [(200, [], [], false, None)]).
+Proof. exact (ex_intro _ rcfg10 (ex_intro _ [w_e; w_f] (ex_intro _ ELineTooLong refute_reject_cr_boundary_limit))). Qed.
+Print Assumptions C03_resp_reject_direction_refuted_cr_boundary.
+
+(* ------------------------------------------------------------------ R6. text-level quirks of the model *)
+(* "Transfer-Encoding: chun<KELVIN SIGN>ed" frames the body as chunked (lower() without isascii()) *)
+Example C03_resp_kelvin_chunked :
+  rdigest (rfeed rcfg0 rinit x_kelvin []) = (OOk [], [(200, [120], [1], true, None)]) /\
+  map (fun m => rm_chunked (rr_msg m)) (snd (fst (rfeed rcfg0 rinit x_kelvin []))) = [true].
+Proof. exact ex_kelvin_chunked. Qed.
+Print Assumptions C03_resp_kelvin_chunked.
+
+(* "HTTP/1.1<NBSP>200<U+2028>OK then ": str.split() separates on Unicode white space *)
+Example C03_resp_unicode_status_line :
+  map (fun m => (rm_code (rr_msg m), rm_reason (rr_msg m))) (snd (fst (rfeed rcfg0 rinit x_status []))) =
+    [(200, [79; 75; 32; 116; 104; 101; 110])].
+Proof. exact ex_unicode_status_line. Qed.
+Print Assumptions C03_resp_unicode_status_line.
